@@ -251,6 +251,15 @@ def proof_side(pid, thorough):
             out["broken"].append((n, "depends on axioms " + ",".join(sorted(axioms[n] - ALLOWED_AXIOMS))))
         else:
             out["discharged"].append(n)
+    # a translator that gave up left the PREVIOUS generated module in place: theorems whose module
+    # depends on it were checked against stale definitions, not against the current source
+    stale = [TRANSLATOR_OUTPUT.get(b[0].split(":", 1)[1]) for b in out["broken"] if b[0].startswith("translator:")]
+    stale_files = {os.path.join(LEAN, *g.split(".")) + ".lean" for g in stale if g}
+    if stale_files:
+        for ms in mods_short:
+            if stale_files & set(import_closure([f"OH.Props.{ms}"])):
+                gone = set(theorems_of(ms))
+                out["discharged"] = [n for n in out["discharged"] if n not in gone]
     if thorough:
         p = run(["lake", "env", "leanchecker"] + mods, cwd=LEAN, timeout=3600)
         out["leanchecker"] = p.returncode
